@@ -195,6 +195,29 @@ Plan genDensity(const std::string &profile, uint64_t seed, int tier) {
   static const double cl[] = {0.0, 1.0, 100.0, 1e6};
   set("rl.coarseningLimit", cl[ro.below(4)]);
   p.ops.push_back(holder);
+  if (ro.chance(0.3)) {
+    // region mode: the grid is built directly from disjoint regions of any height
+    p.head = {1, ro.chance(0.5) ? ro.range(1, 6) : ro.range(1, 40)};
+    p.circuit.rows.clear();
+    int nReg = (int)ro.range(1, 10);
+    long long y = ro.range(-30, 30);
+    for (int i = 0; i < nReg; ++i) {
+      long long h = ro.range(1, 12);
+      // one to three disjoint pieces on this band
+      long long x = ro.range(-40, 40);
+      int pieces = (int)ro.range(1, 3);
+      for (int k = 0; k < pieces; ++k) {
+        long long w = ro.range(1, 60);
+        p.circuit.rows.push_back(RowSpec{(int)x, (int)(x + w), (int)y, (int)(y + h), O_N});
+        x += w + ro.range(0, 15);
+      }
+      y += h + (ro.chance(0.6) ? 0 : ro.range(1, 8));
+    }
+    for (auto &k : p.circuit.cells) {
+      k.w = (int)ro.range(0, 6);
+      k.h = (int)ro.range(0, 6);
+    }
+  }
   static const char *names[] = {"refineX", "refineY", "coarsenX", "coarsenY", "refine", "improve", "run", "coarsenFully", "refineFully", "targets", "demand"};
   static const double w[] = {3, 3, 2, 2, 3, 3, 1.5, 0.7, 0.7, 2, 0.7};
   double tot = 0;
